@@ -65,6 +65,24 @@ def gen_project(rng):
     nmod = rng.choice([1, 1, 2, 2, 3])
     npxd = rng.choice([0, 1, 2, 3, 3, 4, 5])
     has_pxi = rng.random() < 0.4
+    if rng.random() < 0.12:
+        # two OVERLAPPING cimport cycles (d0 <-> d1, d1 <-> d2) with a chain behind the outer head (d0 -> d3 -> d4 [-> d5]);
+        # the modules enter at different cycle nodes, so the second one meets memoised results of the first
+        npxd = rng.choice([5, 5, 6])
+        pxds = ["d%d" % k for k in range(npxd)]
+        edges = {"d0": ["d3", "d1"], "d1": ["d0", "d2"], "d2": ["d1"], "d3": ["d4"], "d4": ["d5"] if npxd == 6 else []}
+        if npxd == 6:
+            edges["d5"] = []
+        if rng.random() < 0.3:
+            edges["d2"].append(rng.choice(["d0", "d3"]))
+        for d in pxds:
+            files[d + ".pxd"] = {"v": 0, "cimports": edges[d]}
+        if has_pxi:
+            files["i0.pxi"] = {"v": 0}
+        entry = rng.choice([["d0", "d1"], ["d0", "d1"], ["d0", "d2"], ["d1", "d0"], ["d0", "d1", "d2"]])
+        for k, e in enumerate(entry):
+            files["m%d.pyx" % k] = {"v": k, "cimports": [e], "include": has_pxi and rng.random() < 0.3, "public": False}
+        return files
     pxds = ["d%d" % k for k in range(npxd)]
     if npxd >= 3 and rng.random() < 0.5:
         # shaped graph: a cimport cycle with a tail chain hanging off it, modules entering at different cycle nodes
